@@ -56,8 +56,10 @@ var vcAddrs = []net.IP{
 	{10, 0, 0, 1}, {10, 0, 0, 2},
 	// a genuine IPv6 address that merely ends in the bytes of 10.0.0.1
 	net.ParseIP("2001:db8::a00:1"),
+	// no address at all (the field absent on the wire): inside no network
+	nil,
 }
-var vcPorts = []uint16{7946, 7946, 7946, 7946, 7946, 7946, 7947, 9000, 7946}
+var vcPorts = []uint16{7946, 7946, 7946, 7946, 7946, 7946, 7947, 9000, 7946, 7946}
 
 // source-only addresses (handleAlive `from`): ids continue after vcAddrs
 var vcSrcExtra = []string{"[fe80::dead:beef%eth0]:7946", "not-an-ip:7946"}
@@ -111,6 +113,10 @@ type vcEvents struct {
 	ev    [][]int64
 	depth int
 	conc  bool
+	// every join / leave / update is also handed to the library's own ChannelEventDelegate (a buffered channel
+	// that is drained only when the case is over) and remembered as it was when it fired
+	fwd  *ChannelEventDelegate
+	sent [][]int64
 }
 
 func (e *vcEvents) add(kind int64, n *Node) {
@@ -118,7 +124,19 @@ func (e *vcEvents) add(kind int64, n *Node) {
 	if e.depth > 1 {
 		e.conc = true
 	}
-	e.ev = append(e.ev, []int64{kind, vcNameID(n.Name), vcAddrID(n.Addr, n.Port), vcMetaID(n.Meta)})
+	v := []int64{kind, vcNameID(n.Name), vcAddrID(n.Addr, n.Port), vcMetaID(n.Meta)}
+	e.ev = append(e.ev, v)
+	if e.fwd != nil && len(e.sent) < cap(e.fwd.Ch)-1 {
+		e.sent = append(e.sent, v)
+		switch kind {
+		case 0:
+			e.fwd.NotifyJoin(n)
+		case 1:
+			e.fwd.NotifyLeave(n)
+		case 2:
+			e.fwd.NotifyUpdate(n)
+		}
+	}
 	e.depth--
 }
 func (e *vcEvents) NotifyJoin(n *Node)   { e.add(0, n) }
@@ -152,7 +170,8 @@ func vcRun(t *testing.T, c *vfCase, st *vfStats) {
 	conf.Name = "self"
 	conf.Transport = &vcTr{make(chan *Packet), make(chan net.Conn)}
 	conf.Logger = log.New(io.Discard, "", 0)
-	ev := &vcEvents{}
+	evCh := make(chan NodeEvent, 1024)
+	ev := &vcEvents{fwd: &ChannelEventDelegate{Ch: evCh}}
 	conf.Events = ev
 	if cc.conflict {
 		conf.Conflict = ev
@@ -411,6 +430,10 @@ func vcRun(t *testing.T, c *vfCase, st *vfStats) {
 				del.meta = []byte(vcMetas[op[1]])
 				m.UpdateNode(time.Millisecond)
 				st.OpHist["update"]++
+			case 12:
+				// the application shuts the node down; claims already on their way, timers and reaping go on
+				m.Shutdown()
+				st.OpHist["shutdown"]++
 			}
 		}()
 		synctest.Wait()
@@ -421,6 +444,23 @@ func vcRun(t *testing.T, c *vfCase, st *vfStats) {
 			st.Panics++
 			break
 		}
+	}
+	// what a consumer of the library's channel delegate reads, long after the events fired, must be what each
+	// event carried when it fired (kind, member, address, metadata)
+	chanBad := false
+	for _, want := range ev.sent {
+		select {
+		case e := <-evCh:
+			if e.Node == nil || int64(e.Event) != want[0] || vcNameID(e.Node.Name) != want[1] || vcAddrID(e.Node.Addr, e.Node.Port) != want[2] || vcMetaID(e.Node.Meta) != want[3] {
+				chanBad = true
+			}
+		default:
+			chanBad = true
+		}
+	}
+	if chanBad && len(c.Obs) > 0 {
+		last := c.Obs[len(c.Obs)-1]
+		last[len(last)-1] |= 2
 	}
 	// classes for the distinct-nontrivial count: (op kind, record-set change, #events)
 	for i, op := range c.Ops {
@@ -490,10 +530,17 @@ func vcGen(r *vfRng) vfCase {
 			}
 		}
 	}
+	down := false
 	for i := 0; i < n; i++ {
 		name := int64(r.n(len(vcNames)))
 		if r.chance(25) {
 			name = 0
+		}
+		if !down && i > n/2 && r.chance(4) {
+			// Shutdown in mid-history: what follows are claims still being processed, timers and reaping
+			c.Ops = append(c.Ops, []int64{12})
+			down = true
+			continue
 		}
 		inc := vcIncs[r.n(5)]
 		if r.chance(6) {
@@ -517,7 +564,11 @@ func vcGen(r *vfRng) vfCase {
 		if r.chance(30) {
 			vk = int64(r.n(len(vcVsns)))
 		}
-		switch p := r.n(100); {
+		p := r.n(100)
+		if down && p >= 90 {
+			p = 73 + p%13 // after Shutdown: no further API calls (Leave after Shutdown is documented to panic)
+		}
+		switch {
 		case p < 26:
 			b := int64(0)
 			if r.chance(4) {
